@@ -42,6 +42,9 @@ def run(rep):
     if all(o['nleap'] >= 1 for o in outs): rep.holds('C03 >= 1 integration step when dim > 0 and maxdepth >= 1')
     else: rep.violated('C03 at least one step', 'tree.one_step', 'a trajectory with maxdepth >= 1 integrates no step')
     target_time(rep, mir, L)
+    from .pool import pool_scripts
+    from ..driver import parts
+    parts(rep, [lambda: pool_scripts(rep, mir, L, 5 if rep.tier == 'quick' else 7)])
 
 def target_time(rep, mir, L):
     """target_integration_time = Some(t): the derived depth limits never exceed options.maxdepth (loop-free part of draw)"""
